@@ -558,6 +558,53 @@ def run_nextrule_case(p):
     return None
 
 
+def run_empty_unselected_case(p):
+    """C02 with an EMPTY domain: a query over 2-3 variables, one of which ranges over an empty domain and is not selected.
+    The Cartesian product of the domains is empty, so no assignment satisfies the condition and no row is returned -
+    whatever the condition is."""
+    O.reset_registry()
+    rng = random.Random(p['seed'])
+    nv = rng.choice([2, 3])
+    empty = rng.randrange(nv)
+    doms = [([] if i == empty else O.make_domain(rng, 3)) for i in range(nv)]
+    cond = O.gen_cond(rng, nv, p.get('depth', 2), vocab=('cmp', 'name'), neg=p.get('neg', False))
+    if empty not in O.vars_of(cond):
+        other = rng.choice([i for i in range(nv) if i != empty])
+        extra = ('cmp', rng.choice(['le', 'ne', 'eq']), ('attr', other, 'size'), ('attr', empty, 'size'))
+        cond = (rng.choice(['and', 'or']), cond, extra) if rng.random() < 0.5 else (rng.choice(['and', 'or']), extra, cond)
+    sel = [i for i in range(nv) if i != empty]
+    try:
+        got, want, q = O.run_multi(doms, cond, sel=sel)
+        again = [tuple(id(r[x]) for x in q._eql_verif_sel_) for r in q.evaluate()]
+    except Exception as e:  # noqa
+        return {'condition': repr(cond), 'empty_variable': empty, 'exception': repr(e), 'trace': traceback.format_exc(limit=4),
+                'signature_kind': 'exception'}
+    if want:
+        return {'what': 'harness: the reference is not empty', 'signature_kind': 'harness'}
+    if got or again:
+        # what the engine returns here: the rows of the operands of or_ that do not mention the empty variable, i.e. the
+        # assignments of the OTHER variables under which the condition holds when every comparison that mentions the empty
+        # variable counts as false
+        def holds_without(c, env):
+            if c[0] == 'and':
+                return holds_without(c[1], env) and holds_without(c[2], env)
+            if c[0] == 'or':
+                return holds_without(c[1], env) or holds_without(c[2], env)
+            if c[0] == 'not':
+                return None
+            return False if empty in O.vars_of(c) else O.holds(c, env)
+        ignoring = set()
+        for combo in itertools.product(*[doms[i] for i in sel]):
+            env = dict(zip(sel, combo))
+            if holds_without(cond, env):
+                ignoring.add(tuple(id(env[i]) for i in sel))
+        reading = ('exactly the rows of the or_ operands that do not mention the empty variable'
+                   if set(got) == ignoring and set(again) == ignoring and 'not' not in repr(cond) else 'some of those rows')
+        return {'condition': repr(cond), 'empty_variable': empty, 'selected': sel, 'domains': repr(doms), 'got_rows': len(got),
+                'want_rows': 0, 'what_came_back': reading, 'signature_kind': 'rows-returned-although-an-unselected-variable-has-an-empty-domain'}
+    return None
+
+
 def run_nextrule_nested_case(p):
     """C05 (and C04): a rule over two variables whose refinement carries a consequent rule (next_rule nested in the
     refinement block), literal-free conditions (the ones that hit the result caches): with the result cache on the answer
@@ -1309,6 +1356,8 @@ def _run_case(p):
         return run_subquery_operand_case(p)
     if p.get('kind') == 'nextrule':
         return run_nextrule_case(p)
+    if p.get('kind') == 'empty_unselected':
+        return run_empty_unselected_case(p)
     if p.get('kind') == 'nextrule_nested':
         return run_nextrule_nested_case(p)
     if p.get('kind') == 'infer_nested':
